@@ -47,17 +47,6 @@ def bin_header(v, mode):
     return b'<!-- dmx encoding %sbinary %i format dmx 1 -->' % (b'unicode_' if mode == 'format' else b'', v)
 
 
-def has_nonascii(spec):
-    def na(s): return any(ord(c) > 127 for c in s)
-    for e in spec['elems']:
-        if na(e['type']) or na(e['name']):
-            return True
-        for a in e['attrs']:
-            if na(a['name']) or (a['t'] == 'STRING' and any(na(v) for v in a['vals'])):
-                return True
-    return False
-
-
 def reachable(spec):
     seen, todo = {0}, [0]
     while todo:
@@ -75,8 +64,15 @@ def has_time(spec):
 
 
 def nonascii_reachable(spec):
-    sub = {'elems': [spec['elems'][i] for i in sorted(reachable(spec))]}
-    return has_nonascii(sub)
+    """does the exported part of the graph (what spec_canon lists) hold a non-ASCII string?"""
+    def na(b): return any(x > 127 for x in b)
+    for e in G.spec_canon(spec)['elems']:
+        if na(e['type']) or na(e['name']):
+            return True
+        for a in e['attrs']:
+            if na(a['name']) or (a['t'] == G.VT_NUM['STRING'] and any(na(v[1]) for v in a['vals'])):
+                return True
+    return False
 
 
 def expected_export_error(spec, fmt, v, mode):
@@ -176,7 +172,20 @@ PROFILES = [
 ]
 
 
+def fixed_witnesses():
+    """witness graphs of the repaired defects (known_findings.d/C14.json): run first, under every configuration."""
+    import common
+    out = []
+    for k in common.load_known(PID):
+        w = k.get('witness') or {}
+        if 'spec' in w:
+            out.append((k['key'], w['spec']))
+    return out
+
+
 def gen_specs(ctx, n):
+    for key, spec in fixed_witnesses():
+        yield 'regression', spec
     yield 'all-types', G.all_types_spec('x')
     yield 'all-types-uni', G.all_types_spec('é\U0001F600"\\')
     for i in range(n):
